@@ -39,7 +39,7 @@ OUTSIDE_PROPERTY: set = set()
 
 TIERS = {
     "quick": dict(maxpath=4, nrandom=2, variants=1, full_size=300, mid_size=300, sample=4, lens=[2, 3], strlens=[2, 8]),
-    "thorough": dict(maxpath=5, nrandom=6, variants=2, full_size=300, mid_size=1500, sample=40, lens=[2, 3, 5], strlens=[2, 8, 32]),
+    "thorough": dict(maxpath=5, nrandom=10, variants=2, full_size=300, mid_size=1500, sample=40, lens=[2, 3, 5], strlens=[2, 8, 32]),
 }
 
 
@@ -90,6 +90,7 @@ def _sources(par: dict, seed: int) -> List[dict]:
 
 
 _CLASSES: List[Tuple[dict, type]] = []
+_SKIPPED: List[str] = []
 _TRIE: codecdrv.Trie = None
 _ADJ: Dict[str, dict] = {}
 
@@ -97,11 +98,18 @@ _ADJ: Dict[str, dict] = {}
 def _collect(par: dict, seed: int):
     global _CLASSES
     _CLASSES = []
+    del _SKIPPED[:]
     seen = set()
     for src in _sources(par, seed):
         if src["type"] == "file" and not os.path.exists(src["path"]):
             continue
-        mod = _load(src)
+        try:
+            mod = _load(src)
+        except Exception as ex:   # noqa: BLE001
+            if src["type"] != "random":
+                raise
+            _SKIPPED.append(f"random definition file (seed {src['seed']}) was not compiled/imported: {type(ex).__name__}: {str(ex)[:100]}")
+            continue
         for c in _classes_of(src, mod):
             key = (getattr(c, "type_name", c.__name__), getattr(c, "type_hash", None), c.__name__)
             if key in seen:
@@ -300,7 +308,7 @@ def run(tier: str, seed: int) -> Dict[str, Any]:
 
     # attribute failing (pair, node) to classes and build violations
     byfail: Dict[Tuple[str, str, int], list] = {}
-    notes: List[str] = []
+    notes: List[str] = list(_SKIPPED)
     uncon = [f for f in fails if f[5] == "unconstructible"]
     for f in fails:
         if f[5] != "unconstructible":
